@@ -354,7 +354,8 @@ def rename_keys(ctx, struct, how):
     return ctx.done(ok, ctx.observe(tgt))
 
 
-def construct(ctx, specs, form='dict', kinds=None):
+def construct(ctx, specs, form='dict', kinds=None, under=None):
+    ctx.under(under)
     """Dataset(dict of arrays) with differing labels == outer join of the arrays"""
     from props.C12 import mk_inputs
     arrs, refs = mk_inputs(ctx, specs, None, kinds)
@@ -497,5 +498,7 @@ def templates():
     add('construct-2d-b', 'construct', cost=4, specs=[[[X, Y], [2, 1]], [[Y, X], [2, 2]]])
     add('construct-mixed-kinds', 'construct', cost=2, specs=[[[X], [2]], [[X], [2]]], kinds={'0:x': 'i', '1:x': 'f'})
     add('construct-mixed-kinds-rev', 'construct', cost=2, specs=[[[X], [2]], [[X], [1]]], kinds={'0:x': 'f', '1:x': 'i'})
+    add('construct-under-inner-option', 'construct', cost=1, specs=[[[X], [2]], [[X], [2]]], under={'align.join': 'inner'})
+    add('construct-under-inner-option-2d', 'construct', cost=4, specs=[[[X, Y], [2, 1]], [[Y, X], [2, 2]]], under={'align.join': 'inner'})
     add('construct-3vars', 'construct', cost=8, specs=[[[X], [2]], [[X], [1]], [[X], [2]]])
     return ts
